@@ -479,8 +479,9 @@ func histInputs(r *hlib.Run, rng *hlib.Rand) []histInput {
 		p4 := append(repeated(rng, 3000, 4), someText(rng, 9000)...)
 		p4t := append(someText(rng, 6000), repeated(rng, 4000, 3)...)
 		p64 := append(repeated(rng, 60000, 2), someText(rng, 30000)...)
-		// incompressible first: LZMA2 starts with uncompressed chunks (output before the first
-		// "$short workbuf" can be asked for: KNOWN_FINDINGS split-dependent:lzma-bad-workbuf-length-on-suspension)
+		// incompressible first: LZMA2 starts with uncompressed chunks (output before the inner
+		// "$short workbuf" yield is reached: the input of the defect repaired by
+		// fixes/C05-lzma-short-workbuf-gate.patch, key split-dependent:lzma-bad-workbuf-length-on-suspension)
 		pSt := append(append(rng.Bytes(66000), someText(rng, 8000)...), repeated(rng, 3000, 3)...)
 		specs := []spec{
 			{"xz", "xz-lzma2-dict4k-stored-first", 4096, pSt, []string{"-c", "-T1", "--check=crc32", "--lzma2=dict=4KiB"}},
